@@ -330,6 +330,7 @@ func (w *wk) runGraphOp(ge *graphEnv, cs *Case, build starlark.Value) {
 	}
 	if cycleKinds(cs.Kinds, cs.Edges) != "-" {
 		w.st.Count("graph_cases_with_a_cycle", 1)
+		w.st.Nontrivial++
 	}
 	if w.executed%100003 == 11 {
 		w.st.Sample(map[string]any{"graph": cs, "program": graphSource(cs.Kinds, cs.Edges)})
